@@ -34,6 +34,7 @@ pub struct Gen<'a> {
     /// tags of the faults injected into the payload being built
     pub faults: Vec<&'static str>,
     bulk_spent: bool,
+    flood_spent: bool,
     /// keys that only sibling variants of the enum being written accept (candidates for stray members)
     sibling_keys: Vec<String>,
 }
@@ -151,7 +152,7 @@ pub fn flip_case(s: &str) -> String {
 
 impl<'a> Gen<'a> {
     pub fn new(defs: &'a Defs, rng: Rng, opts: GenOpts) -> Self {
-        Gen { defs, rng, opts, faults: vec![], bulk_spent: false, sibling_keys: vec![] }
+        Gen { defs, rng, opts, faults: vec![], bulk_spent: false, flood_spent: false, sibling_keys: vec![] }
     }
 
     fn fault(&mut self) -> bool {
@@ -657,6 +658,22 @@ impl<'a> Gen<'a> {
             let v = self.any(depth + 1);
             let pos = self.rng.below(m.len() + 1);
             m.insert(pos, (cand, v));
+        }
+        // bulky cases: one object of the payload gets a flood of 17..40 stray members (limits on the number
+        // of reports per object, tables sized by the number of fields)
+        if self.opts.max_len > 100 && !self.flood_spent && self.rng.chance(1, 2) {
+            self.flood_spent = true;
+            self.tag("unknown-key-flood");
+            let n = 17 + self.rng.below(24);
+            for i in 0..n {
+                let k = format!("junk_{i:02}");
+                if fields.iter().any(|f| !f.skip && f.key == k) || tag == Some(k.as_str()) {
+                    continue;
+                }
+                let v = if i % 3 == 0 { self.any(depth + 1) } else { Ov::Int(i as u64) };
+                let pos = self.rng.below(m.len() + 1);
+                m.insert(pos, (k, v));
+            }
         }
         if self.rng.chance(1, 3) {
             self.rng.shuffle(&mut m);
